@@ -102,6 +102,9 @@ EXPORT errno_t _strrchr_s_chk(const char *restrict dest, rsize_t dmax,
     if (len)
         return memrchr_s(dest, dmax == len ? dmax : len + 1, ch,
                          (void **)resultp);
-    else
+    else {
+        invoke_safe_str_constraint_handler("strrchr_s: dest is empty",
+                                           (void *)dest, ESZEROL);
         return (ESZEROL);
+    }
 }
